@@ -185,7 +185,9 @@ class IndentationFitter(object):
         # IMPORTANT:
         # If there are new additions in the default values,
         # make sure to take these into account in `FP_DEFAULT`.
-        self.fp = FitProperties(**FP_DEFAULT)
+        # (copies: the mutable defaults must not be shared with the
+        # fit properties that are handed back to the user)
+        self.fp = FitProperties(**copy.deepcopy(FP_DEFAULT))
 
         # Get parameters from dataset
         # (sorted, such that `model_key` is set before `params_initial`)
